@@ -112,19 +112,19 @@ type caseOut struct {
 }
 
 type world struct {
-	w     worldT
-	enc   *jsonenc.Encoder
-	encs  *encoder.Encoders
-	netID base.NetworkID
-	nodes map[string]base.LocalNode
-	names map[string]string // address string -> model name
-	suf   base.Suffrage
-	inst  map[string]bool // fact hash string -> in state
-	mu    sync.Mutex
-	ops   map[string]isaac.SuffrageExpelOperation
-	cache sync.Map
-	starts []int64 // every height at which a fact of the cases starts: an operation covers its own start
-	ophs  map[string]string // op key -> hash at creation (the harness' own objects must never be mutated)
+	w      worldT
+	enc    *jsonenc.Encoder
+	encs   *encoder.Encoders
+	netID  base.NetworkID
+	nodes  map[string]base.LocalNode
+	names  map[string]string // address string -> model name
+	suf    base.Suffrage
+	inst   map[string]bool // fact hash string -> in state
+	mu     sync.Mutex
+	ops    map[string]isaac.SuffrageExpelOperation
+	cache  sync.Map
+	starts []int64           // every height at which a fact of the cases starts: an operation covers its own start
+	ophs   map[string]string // op key -> hash at creation (the harness' own objects must never be mutated)
 }
 
 func newWorld(w worldT) (*world, error) {
